@@ -342,7 +342,7 @@ pub fn c19_sweep(max_l: usize) -> Vec<Program> {
                                 backend: Backend::Sim,
                                 root: ViewOp::Titer,
                                 ops: ops.to_vec(),
-                                terminal: Terminal::HandOff(Sink::Write { buf, len: b }),
+                                terminal: Terminal::HandOff(Sink::Write { buf, len: b, slack: (b + ops.len()) % 3 }),
                             }));
                         }
                     }
@@ -494,6 +494,26 @@ pub fn generators(level: usize) -> Vec<Program> {
             }
         }
     }
+    // float spans on a 0.1 grid: the inputs where (end - start) / step sits within rounding
+    // of an integer and `start + step * (n - 1)` can land on `end`
+    for ty in [GenTy::F64, GenTy::F32] {
+        for a10 in 0..=10i64 {
+            for b10 in 0..=30i64 {
+                for s10 in [1i64, 2, 3, 4, 6, 7, -1, -2, -3] {
+                    let (a, b) = if s10 > 0 { (a10, b10) } else { (b10, a10) };
+                    out.push(Program::Gen(Gen {
+                        ty,
+                        kind: GenKind::Range {
+                            start: Some(Val::F(a as f64 / 10.0)),
+                            end: Val::F(b as f64 / 10.0),
+                            step: Some(Val::F(s10 as f64 / 10.0)),
+                        },
+                        out: if (a10 + b10) % 5 == 0 { Container::Vec } else { Container::Sim },
+                    }));
+                }
+            }
+        }
+    }
     // larger counts (casts of the element count, f32 precision)
     for (ty, c) in [(GenTy::F64, Container::Sim), (GenTy::F32, Container::Vec), (GenTy::I32, Container::Deque), (GenTy::I64, Container::Array1)] {
         for n in [10usize, 33, 100, 1000] {
@@ -547,6 +567,7 @@ pub fn rolling(max_l: usize) -> Vec<Program> {
                     backend: backend.clone(),
                     driver: crate::genroll::SLICE_SWEEP,
                     window: 1,
+                    other_delta: 0,
                     out: Container::Sim,
                 }));
             }
@@ -566,14 +587,20 @@ pub fn rolling(max_l: usize) -> Vec<Program> {
                     if matches!(driver, 4 | 5) && !matches!(backend, Backend::Vec | Backend::Deque { .. }) {
                         continue;
                     }
-                    out.push(Program::Roll(Roll {
-                        ty: Ty::F64,
-                        data: pattern(Ty::F64, len, if len > 3 { 1 } else { 0 }),
-                        backend: backend.clone(),
-                        driver,
-                        window,
-                        out: Container::Sim,
-                    }));
+                    let two_series = matches!(driver, 2 | 3 | 5 | 10);
+                    let lazy_backend = matches!(backend, Backend::SimInput | Backend::Deque { .. } | Backend::ArcDeque { .. });
+                    let deltas: &[i64] = if two_series && lazy_backend { &[0, -1, -2, 1] } else { &[0] };
+                    for &other_delta in deltas {
+                        out.push(Program::Roll(Roll {
+                            ty: Ty::F64,
+                            data: pattern(Ty::F64, len, if len > 3 { 1 } else { 0 }),
+                            backend: backend.clone(),
+                            driver,
+                            window,
+                            other_delta,
+                            out: Container::Sim,
+                        }));
+                    }
                 }
             }
         }
